@@ -56,6 +56,7 @@ func recvTypeName(fn *ssa.Function) string {
 }
 
 func runC43(c *core.Ctx) {
+	checkMetadataExportUnconditional(c)
 	checkImportExportInverse(c)
 	checkCloneDeepCopiesAccounts(c)
 	nCalls := 0
